@@ -58,8 +58,12 @@ func H_C02_read_%[1]s(n int) {
 	want := zzFrom_%[1]s(v)
 	b := zzEnc(nil, zzT_%[1]s, want)
 	p := New%[2]s()
-	err := p.Read(zzProtoOver(b))
+	// two sentinel bytes follow the struct on the stream: Read must stop exactly at its end
+	buf := thrift.NewTMemoryBuffer()
+	buf.Write(append(append([]byte{}, b...), 0xAB, 0xCD))
+	err := p.Read(thrift.NewTBinaryProtocol(buf, true, true))
 	zzrt.Assert(err == nil, "Read accepts the reference encoding")
+	zzrt.Assert(buf.Len() == 2, "Read consumes exactly the bytes of the struct (what follows on the connection stays)")
 	zzAssertEq(zzT_%[1]s, zzFrom_%[1]s(p), want, "Read")
 	zzrt.Cover("end")
 }
